@@ -23,17 +23,31 @@ const TYPES: [PMType; 5] = [PMType::Type0_o_oo, PMType::Type0_e_ee, PMType::Type
 
 /// collinear setup in the property's box; Err(reason) when the library cannot build it
 fn box_setup(rng: &mut Rng, min_waist: f64, max_waist: f64) -> Result<(SPDC, Value), String> {
+  box_setup_opt(rng, min_waist, max_waist, false)
+}
+
+/// `tilted`: a periodically poled crystal whose cut angle is small but non-zero (|theta| in (0.2, 2.8) deg: the fixed-step branch of
+/// Beam::walkoff_angle), extraordinary pump, longest crystal and smallest waists (largest walk-off parameter)
+fn box_setup_opt(rng: &mut Rng, min_waist: f64, max_waist: f64, tilted: bool) -> Result<(SPDC, Value), String> {
   let metas = CrystalType::get_all_meta();
-  let meta = rng.pick(&metas).clone();
+  let meta = if tilted {
+    let id = *rng.pick(&["BBO_1", "LiNbO3_1", "KDP_1", "LiIO3_1", "BiBO_1", "KTP"]);
+    match metas.iter().find(|m| m.id == id) {
+      Some(m) => m.clone(),
+      None => return Err("crystal id".into()),
+    }
+  } else {
+    rng.pick(&metas).clone()
+  };
   let crystal = CrystalType::from_string(meta.id).map_err(|_| "crystal id".to_string())?;
   let (lo, hi) = match meta.transmission_range {
     Some(r) => (r.0, r.1),
     None => return Err("no window".into()),
   };
-  let pm_type = *rng.pick(&TYPES);
-  let poled = rng.coin();
+  let pm_type = if tilted { *rng.pick(&[PMType::Type0_e_ee, PMType::Type1_e_oo, PMType::Type2_e_eo, PMType::Type2_e_oe]) } else { *rng.pick(&TYPES) };
+  let poled = tilted || rng.coin();
   // corners of the box are over-sampled: longest crystal, smallest waists (largest diffraction / walk-off corrections)
-  let length = if rng.below(4) == 0 { 20e-3 } else { rng.log_range(0.5e-3, 20e-3) };
+  let length = if tilted { rng.range(15e-3, 20e-3) } else if rng.below(4) == 0 { 20e-3 } else { rng.log_range(0.5e-3, 20e-3) };
   let temp_c = rng.range(15., 60.);
   // wavelengths inside the transparency window (idler up to 2.5 x pump wavelength x 1.25)
   let lp_lo = lo * 1.05;
@@ -43,12 +57,12 @@ fn box_setup(rng: &mut Rng, min_waist: f64, max_waist: f64) -> Result<(SPDC, Val
   }
   let lp = rng.range(lp_lo, lp_hi.min(lp_lo * 2.5));
   let ls = if rng.below(4) == 0 { 2. * lp } else { 2. * lp * rng.range(0.8, 1.25) };
-  let mut waist = |rng: &mut Rng| if rng.below(3) == 0 { min_waist } else { rng.log_range(min_waist, max_waist) };
+  let mut waist = |rng: &mut Rng| if tilted { min_waist * rng.range(1.0, 1.15) } else if rng.below(3) == 0 { min_waist } else { rng.log_range(min_waist, max_waist) };
   let wp = waist(rng);
   let ws = waist(rng);
   let wi = waist(rng);
   // negative crystal angles give a NEGATIVE pump walk-off angle (tan rho < 0)
-  let theta_c = if poled { *rng.pick(&[90., 90., 60., 35., 25., -35., -60., -25.]) } else { 45. };
+  let theta_c = if tilted { rng.range(0.2, 2.8) * (if rng.coin() { 1. } else { -1. }) } else if poled { *rng.pick(&[90., 90., 60., 35., 25., -35., -60., -25.]) } else { 45. };
   let flip_theta = !poled && rng.below(3) == 0;
   let phi_c = if rng.coin() { 0. } else { rng.range(0., 90.) };
   let mut cs = CrystalSetup {
@@ -85,6 +99,20 @@ fn box_setup(rng: &mut Rng, min_waist: f64, max_waist: f64) -> Result<(SPDC, Val
     Ok(Err(e)) => Err(e),
     Err(p) => Err(format!("panic: {}", p)),
   }
+}
+
+/// tan(rho) = -(1/n_e) dn_e/dtheta of the pump, by central differences of Beam::refractive_index over the crystal cut angle with steps
+/// 2e-3 and 1e-3 rad, Richardson-extrapolated (truncation ~1e-11 relative; rounding of n, up to ~1e-11 near an optic axis, enters as
+/// ~1e-8).  NOT through Beam::walkoff_angle.
+fn tan_rho_independent(spdc: &SPDC) -> f64 {
+  let n_at = |t: f64| {
+    let mut cs = spdc.crystal_setup.clone();
+    cs.theta = t * RAD;
+    *spdc.pump.refractive_index(spdc.pump.frequency(), &cs)
+  };
+  let t = *(spdc.crystal_setup.theta / RAD);
+  let d = |h: f64| (n_at(t + h) - n_at(t - h)) / (2. * h);
+  -((4. * d(1e-3) - d(2e-3)) / 3.) / n_at(t)
 }
 
 /// Delta k_z L / 2 with the pump at omega_s + omega_i, collinear, from public wavenumbers
@@ -250,7 +278,8 @@ pub fn run(args: &[String]) {
   let mut tries = 0;
   while made < n_pw && tries < 40 * n_pw + 40 {
     tries += 1;
-    let (spdc, desc) = match box_setup(&mut rng, 2e-3, 20e-3) {
+    // every fourth setup: slightly tilted poled crystal
+    let (spdc, desc) = match box_setup_opt(&mut rng, 2e-3, 20e-3, tries % 4 == 0) {
       Ok(x) => x,
       Err(e) => {
         emit(json!({"kind": "skip", "why": e}));
@@ -347,7 +376,7 @@ pub fn run(args: &[String]) {
           let p = dump_params(&spdc, a0, b0, &zs);
           let ss: Vec<Value> = samples.iter().map(|(t, ff, v, vb, o)| json!({"t": fx(*t), "ff": fx(*ff), "v": cx(*v), "v130": cx(*vb),
             "v_gl40": o.map(|x| cx(x.0)), "v_adaptive": o.map(|x| cx(x.1))})).collect();
-          emit(json!({"kind": "pw", "setup": desc, "dir_rad": ang, "p": p, "samples": ss,
+          emit(json!({"kind": "pw", "setup": desc, "dir_rad": ang, "p": p, "samples": ss, "tan_rho_independent": fx(guarded(std::panic::AssertUnwindSafe(|| tan_rho_independent(&spdc))).unwrap_or(f64::NAN)),
             "theta_c_deg": *(spdc.crystal_setup.theta / DEG)}));
         }
         Ok(None) => emit(json!({"kind": "skip", "why": "no phase-matched point within 12 % detuning on the sampled direction", "setup": desc})),
